@@ -31,6 +31,7 @@
     view.init <statement>                                                → ok <symbol>|<initializer> | AssertionError   (generated patterns)
     view.immutable <var_type>                                            → <text>
     capture <param,…> <referenced name,…>                                → <ref_vars names,…>|<capture list,…>
+    templates <class type variable,…> <type variable used in the signature,…>   → <type parameters of the function / method,…>
     s! <op…>      the same op, printing the string layer's answer only (inputs outside the abstract layer's domain)
 -/
 import Tranp.Driver.Common
@@ -277,6 +278,7 @@ def step1 (st : St) : List String → St × String
     (st, s!"H={sh (ViewHelper.superInitParse (unhexD t))} G={sh (ViewHelper.Gen.superInitParse (unhexD t))}")
   | ["view.init", t] =>
     (st, match ViewHelper.Gen.initializerParse (unhexD t) with | .ok (a, b) => s!"ok {Str.hex a}|{Str.hex b}" | .error e => e.text)
+  | ["templates", ks, us] => (st, hexL (Capture.templatesOf (unhexL ks) (unhexL us)))
   | ["capture", ps, rs] =>
     (st, s!"{hexL (Capture.refVars (unhexL ps) (unhexL rs))}|{hexL (Capture.binds (unhexL ps) (unhexL rs))}")
   | ["view.immutable", vt] => (st, Str.hex (ViewHelper.toImmutable (unhexD vt)))
